@@ -126,7 +126,7 @@ int main(int argc, char **argv) {
                 // 64 and 4096-related block sizes of the succinct structures)
                 for (long c0 = 1; c0 <= 400; c0 += 20) { Task t; t.cfg = c; t.kind = 6; t.word_lo = c0; t.word_hi = c0 + 20; tasks.push_back(t); }
                 // mega variant (one-level classes only): 150,000 clusters plus 15 far outliers: select structures get "long" blocks
-                if (e.eps <= 2 && e.eps_rec == 0 && (!strcmp(e.klass, "eliasfano") || !strcmp(e.klass, "pgm"))) { Task t; t.cfg = c; t.kind = 3; t.word_lo = 114; t.word_hi = 115; t.rep = 37500; t.n = 4; t.seam = 4; t.p = 1; tasks.push_back(t); }
+                if (e.eps <= 2 && ((e.eps_rec == 0 && (!strcmp(e.klass, "eliasfano") || !strcmp(e.klass, "pgm"))) || (!strcmp(e.klass, "compressed") && e.eps_rec <= 1))) { Task t; t.cfg = c; t.kind = 3; t.word_lo = 114; t.word_hi = 115; t.rep = 37500; t.n = 4; t.seam = 4; t.p = 1; tasks.push_back(t); }
             }
             if ((fam & 4) && wide) {
                 // skewed variants (a jump of 3x / 30x the span): 64 words each
@@ -139,7 +139,10 @@ int main(int argc, char **argv) {
             }
             if ((fam & 4) && wide) {
                 // the same density members placed at 3/4 of the key domain (64-bit keys there are not exactly representable as double)
-                for (long w : (thorough ? std::vector<long>{0, 27, 57, 114, 201, 228, 255} : std::vector<long>{27, 114, 228})) { Task t; t.cfg = c; t.kind = 3; t.word_lo = w; t.word_hi = w + 1; t.rep = 300; t.n = 4; t.p = 1; t.first = 1; tasks.push_back(t); }
+                for (int top : {1, 2})   // 2: negative keys (signed key types only; other types have no such member)
+                for (long w : (thorough ? std::vector<long>{0, 27, 57, 114, 201, 228, 255} : std::vector<long>{27, 114, 228})) { Task t; t.cfg = c; t.kind = 3; t.word_lo = w; t.word_hi = w + 1; t.rep = 300; t.n = 4; t.p = 1; t.first = top; tasks.push_back(t); }
+                // segment counts around the block sizes of the succinct structures (4096 ones per select superblock, 65536)
+                if (e.eps <= 2) for (long c0 : (thorough ? std::vector<long>{4090, 8186, 12282, 65530} : std::vector<long>{4090, 8186})) { Task t; t.cfg = c; t.kind = 6; t.word_lo = c0; t.word_hi = c0 + 12; tasks.push_back(t); }
             }
             if ((fam & 4) && wide) {
                 // density family: all 4-digit (quick) / 5-digit (thorough) words of gap multipliers, 300 clusters per digit
@@ -155,7 +158,7 @@ int main(int argc, char **argv) {
             }
         }
         fam_bounds = thorough ? "; span family (clusters spread over the whole domain of the key type, 18 cluster counts x 9 end offsets, every configuration); seam family n=32768+{0,1,7}, chunks {2,3,4,5,7,16,19,20}, all 4096 window words at every seam (and at the first/last seam alone); blocks family: 1 block x rep {1,50,400}, 2 blocks x rep {1,20}; density family: all 1024 five-digit words x 300 clusters"
-                              : "; span family (clusters spread over the whole domain of the key type, 11 cluster counts x 9 end offsets, every configuration); seam family n=32768, chunks {2,20}, all 4096 window words at every seam; blocks family: 1 block x rep {1,50}, 2 blocks x rep 1; density family (also placed at 3/4 of the key domain for three words): all 256 four-digit words of gap multipliers x 300 clusters (several segments per upper level), skewed variants with a 3x/30x jump, and 44000-cluster variants (plain, and 'chunk-tail' with a key-space jump 1/3 clusters before every chunk boundary over a zig-zag background) whose upper levels are built by the chunked builder; long-run family: a duplicate run from around a chunk start to around a chunk end, every start/end offset";
+                              : "; span family (clusters spread over the whole domain of the key type, 11 cluster counts x 9 end offsets, every configuration); seam family n=32768, chunks {2,20}, all 4096 window words at every seam; blocks family: 1 block x rep {1,50}, 2 blocks x rep 1; density family (also placed at 3/4 of the key domain and, for signed keys, at 3/4 of the negative half, for three words; single blocks of 4090..4101 and 8186..8197 clusters): all 256 four-digit words of gap multipliers x 300 clusters (several segments per upper level), skewed variants with a 3x/30x jump, and 44000-cluster variants (plain, and 'chunk-tail' with a key-space jump 1/3 clusters before every chunk boundary over a zig-zag background) whose upper levels are built by the chunked builder; long-run family: a duplicate run from around a chunk start to around a chunk end, every start/end offset";
     }
 
     if (asan_quick) std::stable_sort(tasks.begin(), tasks.end(), [](const Task &a, const Task &b) { return (a.kind != 0) > (b.kind != 0); });   // few large-input cases first
